@@ -24,7 +24,7 @@ func witnessF99(rec *ev.Rec) {
 		}
 		first, err := ygot.Marshal7951(root)
 		if err != nil {
-			panic("HARNESS-BUG: F99 witness: " + err.Error())
+			return true, "a valid tree cannot be rendered: " + err.Error()
 		}
 		// two entries, map iteration order is random per range statement: 40 renderings agree by chance
 		// with probability 2^-39
